@@ -258,6 +258,12 @@ def check_roots(S, B, roots, perm, acc, case):
         'polyroots01': outcome(lambda: polyroots01(coeffs)),
         'polyroots_real_01open': outcome(lambda: polyroots(coeffs, realroots=True, condition=lambda r: 0 < r < 1)),
         'polyroots_all': outcome(lambda: polyroots(coeffs)),
+        # every combination of the two options, by keyword and by position
+        'polyroots_condition_only': outcome(lambda: polyroots(coeffs, condition=lambda r: abs(complex(r).imag) < 1e-7 and 0 < complex(r).real < 1)),
+        'polyroots_positional': outcome(lambda: polyroots(coeffs, True, lambda r: 0 < r < 1)),
+        'polyroots_real_no_condition': outcome(lambda: polyroots(coeffs, realroots=True)),
+        'polyroots_real_no_condition_positional': outcome(lambda: polyroots(coeffs, True)),
+        'polyroots_explicit_defaults': outcome(lambda: polyroots(coeffs, realroots=False, condition=lambda r: True)),
     }
     now = [complex(x) for x in (coeffs.coeffs if isinstance(coeffs, np.poly1d) else coeffs)]
     if now != pristine:
@@ -275,7 +281,15 @@ def check_roots(S, B, roots, perm, acc, case):
                                'with_cluster': any(b.startswith(('pair', 'double')) for b in B)},
                               case, observed=[core.jz(g) for g in got], expected='%r exactly once' % s,
                               detail='roots=%r perm=%r' % (roots, perm))
-        if fn != 'polyroots_all':
+        if fn.startswith('polyroots_real_no_condition'):
+            # only real values, each near a prescribed real root
+            real_all = [x.real for x in map(complex, roots) if abs(x.imag) < 1e-12]
+            for g in got:
+                if abs(g.imag) > 1e-6 * max(1.0, abs(g.real)) or min([abs(g.real - x) / max(1.0, abs(x)) for x in real_all] + [float('inf')]) > 1e-3:
+                    acc.violation('spurious_root', {'fn': fn}, case, observed=[core.jz(g) for g in got], detail='roots=%r perm=%r' % (roots, perm))
+                    break
+            continue
+        if fn not in ('polyroots_all', 'polyroots_explicit_defaults'):
             for b in B:
                 if b in DEMANDED_IN_BLOCK:
                     want = DEMANDED_IN_BLOCK[b]
@@ -398,6 +412,7 @@ def shards(tier, seed):
     out += [{'what': 'limits'}, {'what': 'arc'}]
     out += [{'what': 'special', 'degree': n} for n in range(0, 9)]
     out += [{'what': 'native', 'degree': n} for n in range(1, 6)]
+    out.append({'what': 'zero_root'})
     return out
 
 
@@ -412,6 +427,8 @@ def run_shard(desc, tier, seed):
         run_special(desc['degree'], acc)
     elif desc['what'] == 'native':
         run_native(desc['degree'], acc)
+    elif desc['what'] == 'zero_root':
+        run_zero_root(acc)
     elif desc['what'] == 'limits':
         run_limits(acc)
     else:
@@ -476,6 +493,43 @@ def native_form(vals, form):
     return [Fraction(int(v)) for v in vals]
 
 
+ZERO_ROOT_SETS = [[0.0, 0.5], [0.0, 0.3, 2.0], [0.0, -1.0, 0.25], [0.0, 0.5, complex(0.4, 1.0), complex(0.4, -1.0)], [0.0], [0.0, 1.0], [0.0, 1e-3, -1e-3]]
+
+
+def run_zero_root(acc, only=None):
+    """polynomials with the EXACT simple root 0 (constant coefficient exactly 0, coefficients exact): with realroots=True
+    and no condition - or a condition that admits it - the root 0 is returned exactly once, like any other real root"""
+    for ri, rts in enumerate(ZERO_ROOT_SETS):
+        coeffs = np.real(np.poly(rts))
+        assert coeffs[-1] == 0
+        real = [complex(x).real for x in rts if abs(complex(x).imag) < 1e-12]
+        for fn_name, fn in (('realroots_keyword', lambda: polyroots(coeffs, realroots=True)),
+                            ('realroots_positional', lambda: polyroots(coeffs, True)),
+                            ('realroots_and_closed_condition', lambda: polyroots(coeffs, realroots=True, condition=lambda r: -0.5 <= r <= 0.75)),
+                            ('condition_only', lambda: polyroots(coeffs, condition=lambda r: abs(complex(r).imag) < 1e-9 and -0.5 <= complex(r).real <= 0.75)),
+                            ('defaults', lambda: polyroots(coeffs)),
+                            ('list_input', lambda: polyroots([float(c) for c in coeffs], realroots=True))):
+            case = {'what': 'zero_root', 'set': ri, 'call': fn_name}
+            if only is not None and only != case:
+                continue
+            acc.case(case, cls='zero_root/%s' % fn_name)
+            r = outcome(fn)
+            if r[0] != 'ok':
+                acc.violation('polyroots_raises', {'fn': fn_name, 'exc': r[1]}, case, observed=r)
+                continue
+            got = [complex(x) for x in r[1]]
+            want = [x for x in real if 'condition' not in fn_name or -0.5 <= x <= 0.75]
+            for w in want:
+                hits = [g for g in got if abs(g - w) <= 1e-9]
+                if len(hits) != 1:
+                    acc.violation('simple_root_lost_or_duplicated', {'fn': fn_name, 'count': 'lost' if not hits else 'duplicated', 'root': 'zero' if w == 0 else 'other'},
+                                  case, observed=[core.jz(g) for g in got], expected='%r exactly once' % w)
+                    break
+            else:
+                if fn_name != 'defaults' and len(got) != len(want):
+                    acc.violation('spurious_root', {'fn': fn_name}, case, observed=[core.jz(g) for g in got], expected=want)
+
+
 def run_native(n, acc, only=None):
     """the helpers take control points of whatever number type the caller has: Python ints, floats,
     complex, integer / float / complex ndarrays, Fractions.  Same values, every form, against the exact
@@ -530,6 +584,9 @@ def replay(case):
     acc = core.ReplayAcc()
     if case['what'] == 'native':
         run_native(case['degree'], acc, only=case)
+        return acc.vlist
+    if case['what'] == 'zero_root':
+        run_zero_root(acc, only=case)
         return acc.vlist
     if case['what'] == 'identity':
         run_identities(case['degree'], case['choice'], acc, only=case['identity'])
